@@ -224,7 +224,7 @@ func checkRepliesOwnInOrder(e *env, prop string, faultFree bool) {
 	type span struct{ task, s, e int }
 	var spans []span
 	e.eachCall(func(task int, spec CallSpec, rec *sched.CallRec, res *CallResult) {
-		if !rec.Done || res == nil {
+		if !rec.Done || rec.Hung || res == nil {
 			out.violate(prop, "call-never-returned", "task %d call %d (%s %v) started at step %d never returned (run ended: %s)", task, rec.Index, spec.Kind, truncArgv(firstArgv(spec)), rec.StartStep, out.Reason)
 			return
 		}
